@@ -266,6 +266,11 @@ def get_fn_ast(fn: Callable) -> ast.FunctionDef:
     if not isinstance(fn_def := tree.body[0], ast.FunctionDef):
         msg = "Not a function"
         raise TypeError(msg)
+    if fn_def.decorator_list or hasattr(fn, "__wrapped__"):
+        # The source is the one of the undecorated function (inspect follows
+        # __wrapped__), which is not what calling the object does
+        msg = "Decorated functions are not supported"
+        raise TypeError(msg)
     return fn_def
 
 
